@@ -492,7 +492,7 @@ func (db *DB) doProcessIterations(iterations []*iteration) {
 					itVals[itI] = val
 				}
 			}
-			itMore, err := it.guard.ProceedAfter(it.onValue(dims, itVals))
+			itMore, err := it.guard.ProceedAfter(it.safeOnValue(dims, itVals))
 			if err != nil {
 				it.t.log.Errorf("Error while iterating: %v", err)
 			}
@@ -521,6 +521,21 @@ func (db *DB) doProcessIterations(iterations []*iteration) {
 		it.offsetsCh <- offsetsBySource
 		it.errCh <- it.err
 	}
+}
+
+// safeOnValue calls onValue, turning a panic in the query's own row processing
+// (e.g. in one of the functions used by its WHERE clause) into an error for
+// that query. The iteration runs on a goroutine that serves all queries, so a
+// panic here would otherwise take down the whole process.
+func (it *iteration) safeOnValue(dims bytemap.ByteMap, vals []encoding.Sequence) (more bool, err error) {
+	defer func() {
+		p := recover()
+		if p != nil {
+			more = false
+			err = fmt.Errorf("Panic while iterating: %v", p)
+		}
+	}()
+	return it.onValue(dims, vals)
 }
 
 func (it *iteration) indexOfOutField(field core.Field) int {
